@@ -189,6 +189,9 @@ type MonC02Ledger struct{}
 func (m *MonC02Ledger) Name() string { return "C02" }
 func (m *MonC02Ledger) AtEnd(s *Sim)  {}
 func (m *MonC02Ledger) AfterBlock(s *Sim, eb *ExecBlock) {
+	if !s.Ledger.BlockOK {
+		return
+	}
 	for i := range s.Ledger.Moves {
 		mv := &s.Ledger.Moves[i]
 		if mv.Kind != "mint" && mv.Kind != "burn" {
